@@ -289,3 +289,5 @@ func mustMarshal(m proto.Message) []byte {
 }
 
 func valueOfString(s string) protoreflect.Value { return protoreflect.ValueOfString(s) }
+
+func valueOfInt32(v int32) protoreflect.Value { return protoreflect.ValueOfInt32(v) }
